@@ -5,6 +5,7 @@ func init() {
 		ID:    "C20",
 		Title: "Custom functions: unique registration, faithful argument/result conversion",
 		Rules: []string{
+			"R-DOTKW: the parse function registered for the dot, by cases on the abstract parser: an identifier and every keyword token is a name after the dot; a non-name is an error",
 			"R-OPTABLE (singletons): no object is compared by identity with the TRUE / FALSE / NIL singletons",
 			"R-REGISTRY (context): every construction of an evaluation context stores its CustomFunc and Config before it escapes",
 			"R-REGISTRY: each Register*Func stores into its table only on the miss edge of a lookup of the same map and key and returns a non-nil error on the hit edge; no other code writes, replaces or clears a table; evalCallExp consults custom functions only after the builtin lookup missed; hasCustomFunc and evalCallExp use the table of the receiver's kind for all five kinds; arguments go through Val(), results through NativeToObject; the fall-through error names function and type",
@@ -15,6 +16,7 @@ func init() {
 		NotDecided:  "TODO",
 		Assumptions: trustedBase,
 		Run: func(m *Model, s *Sink) {
+			m.RunDotKeywords(s, "R-DOTKW")    // a custom function registered under a keyword name can be called
 			m.RunSingletons(s, "R-OPTABLE")   // a boolean receiver is converted by its value, not by identity with TRUE
 			m.RunCtxComplete(s, "R-REGISTRY") // every evaluation context carries the registry
 			m.RunRegistry(s, "R-REGISTRY")
